@@ -822,3 +822,34 @@ package keeper
 //@ loop 1 step [failed-removal-rolled-back] $DeleteConsumerChain.called && $DeleteConsumerChain.ret != nil ==> S == prev(S) && E == prev(E) && X == prev(X)
 //@ loop 1 step [removed-committed] $DeleteConsumerChain.called && $DeleteConsumerChain.ret == nil ==> sameworld($DeleteConsumerChain.ctx, ctx)
 //@ ensures [no-halt-on-failed-removal] result != nil ==> !$DeleteConsumerChain.called
+
+// ---------------------------------------------------------------- C14: validator messages act for the validator named in the message
+
+//@ func msgServer.AssignConsumerKey
+//@ requires msg != nil && k.Keeper != nil
+//@ let va := sdk.ValAddressFromBech32(msg.ProviderAddr)
+//@ let v := old(k.stakingKeeper.GetValidator(goCtx, va.0))
+//@ ensures [registered-validator] result1 == nil ==> va.1 == nil && v.1 == nil
+//@ ensures [acts-for-message-validator] result1 == nil ==> $AssignConsumerKey.called && $AssignConsumerKey.consumerId == msg.ConsumerId && $AssignConsumerKey.validator == v.0 && $AssignConsumerKey.ret == nil
+//@ ensures [rejected-keeps-state] $AssignConsumerKey.called && $AssignConsumerKey.ret != nil ==> result1 != nil
+
+//@ func msgServer.OptIn
+//@ requires msg != nil && k.Keeper != nil
+//@ let va := sdk.ValAddressFromBech32(msg.ProviderAddr)
+//@ let v := old(k.stakingKeeper.GetValidator(goCtx, va.0))
+//@ ensures [registered-validator] result1 == nil ==> va.1 == nil && v.1 == nil && v.0.GetConsAddr().1 == nil
+//@ ensures [acts-for-message-validator] result1 == nil ==> $HandleOptIn.called && $HandleOptIn.consumerId == msg.ConsumerId && $HandleOptIn.providerAddr == types.NewProviderConsAddress(v.0.GetConsAddr().0) && $HandleOptIn.consumerKey == msg.ConsumerKey && $HandleOptIn.ret == nil
+
+//@ func msgServer.OptOut
+//@ requires msg != nil && k.Keeper != nil
+//@ let va := sdk.ValAddressFromBech32(msg.ProviderAddr)
+//@ let v := old(k.stakingKeeper.GetValidator(goCtx, va.0))
+//@ ensures [registered-validator] result1 == nil ==> va.1 == nil && v.1 == nil && v.0.GetConsAddr().1 == nil
+//@ ensures [acts-for-message-validator] result1 == nil ==> $HandleOptOut.called && $HandleOptOut.consumerId == msg.ConsumerId && $HandleOptOut.providerAddr == types.NewProviderConsAddress(v.0.GetConsAddr().0) && $HandleOptOut.ret == nil
+
+//@ func msgServer.SetConsumerCommissionRate
+//@ requires msg != nil && k.Keeper != nil
+//@ let va := sdk.ValAddressFromBech32(msg.ProviderAddr)
+//@ let v := old(k.stakingKeeper.GetValidator(goCtx, va.0))
+//@ ensures [registered-validator] result1 == nil ==> va.1 == nil && v.1 == nil && v.0.GetConsAddr().1 == nil
+//@ ensures [acts-for-message-validator] result1 == nil ==> $HandleSetConsumerCommissionRate.called && $HandleSetConsumerCommissionRate.consumerId == msg.ConsumerId && $HandleSetConsumerCommissionRate.providerAddr == types.NewProviderConsAddress(v.0.GetConsAddr().0) && $HandleSetConsumerCommissionRate.commissionRate == msg.Rate && $HandleSetConsumerCommissionRate.ret == nil
